@@ -21,7 +21,7 @@ pub const REQUIRED: &[&str] = &[
     "class.finite_wildcard", "class.threshold<=min_score", "class.threshold=-inf", "class.threshold_at_a_score",
     "class.all_positions_hit", "dispatch_forced.generic", "dispatch_forced.sse2", "dispatch_forced.avx2",
     "class.history", "class.history.threshold_lowered", "class.history.threshold_raised",
-    "class.history.block_size_changed_after_blocks_scored", "class.history.hits_yielded", "class.rows>65536",
+    "class.history.block_size_changed_after_blocks_scored", "class.history.hits_yielded", "class.history.finished_by_internal_iteration", "class.rows>65536", "class.hand_built_taller_matrix",
 ];
 
 pub struct ScanInput {
@@ -126,7 +126,9 @@ pub fn make_scan_input(rng: &mut Rng, l: usize, m: usize, near_ties: bool) -> Sc
     let exact = exact_scores(&rows, &seq);
     let pssm = scoring::<Dna>(&rows);
     let enc = encoded::<Dna>(&seq);
-    let mut striped: StripedSequence<Dna, U32> = stripe_generic(&enc);
+    // one input in eight is striped by hand over a matrix taller than the sequence needs
+    // (StripedSequence::new: the stripe height is the matrix row count)
+    let mut striped: StripedSequence<Dna, U32> = if rng.chance(0.125) && l > 0 && l < 100_000 { stripe_tall(&seq, rng.range(1, 9)) } else { stripe_generic(&enc) };
     // the sequence may have served other motifs before: look-ahead rows built in one or two
     // earlier, shorter configurations, or more of them than this motif needs
     match rng.below(4) {
@@ -298,7 +300,8 @@ fn scan_case(case: u64, rng: &mut Rng, rep: &mut Report) {
     // reconfiguration history: setters called between next() calls (see scanhist.rs)
     if inp.l >= inp.m {
         let arm = DISP_ARMS[((case as usize) + 3) % 4];
-        crate::scanhist::history_case(case, rng, rep, &inp, arm, crate::scanhist::Finish::Exhaust, "c02", None);
+        let finish = if rng.chance(0.4) { crate::scanhist::Finish::ForEach } else { crate::scanhist::Finish::Exhaust };
+        crate::scanhist::history_case(case, rng, rep, &inp, arm, finish, "c02", None);
     }
 }
 
@@ -318,6 +321,9 @@ pub fn one_scan(case: u64, rep: &mut Report, inp: &ScanInput, arm: Arm, t: f32, 
     }
     if inp.r_rows > b {
         rep.cover("class.blocks>1");
+    }
+    if inp.r_rows > (l + 31) / 32 {
+        rep.cover("class.hand_built_taller_matrix");
     }
     if inp.rows.iter().any(|r| r[4].is_finite()) {
         rep.cover("class.finite_wildcard");
